@@ -91,6 +91,58 @@ def stream_routes(ctx, n, order, tts):
     ctx.sample(dict(stream=s.label, first_lines=s.lines[:8]))
 
 
+def stream_subst(ctx, n, order, tts, reps):
+    """simultaneous substitution of 2..n variables by (possibly negated)
+    variables or other functions: the result must be THE node of the
+    substituted function, and the table stays reduced and ordered"""
+    rng = ctx.rng
+    M = Mgr(ctx, f'subst n={n} order={order}', n, order)
+    vs = [M.op('var', j) for j in range(n)]
+    for v in vs:
+        M.op('incref', v)
+    for t in tts:
+        f = M.build(t)
+        M.op('incref', f)
+        for _ in range(reps):
+            js = rng.sample(range(n), rng.randint(2, n))
+            sub, subt = {}, {}
+            for j in js:
+                if rng.random() < 0.75:
+                    x = rng.randrange(n)
+                    sg = rng.choice([1, 1, -1])
+                    sub[j] = sg * vs[x]
+                    subt[j] = T.var(x, n) if sg == 1 else T.neg(T.var(x, n), n)
+                else:
+                    tt2 = rng.getrandbits(1 << n)
+                    sub[j] = M.build(tt2)
+                    subt[j] = tt2
+            for u in sub.values():
+                M.op('incref', u)
+            r = M.op('let_ref', sub, f)
+            e = T.vector_compose(t, n, subt)
+            ctx.case((n, order, 'vsubst', t, tuple(sorted(subt.items()))), True)
+            ctx.count('vsubst')
+            if r is None:
+                ctx.violation('C02:subst-rejected', 'simultaneous substitution rejected', M.case())
+            else:
+                M.op('incref', r)
+                ok = M.check_table('C02:table', 'table after simultaneous substitution')
+                d = M.build(e)
+                if ok and M.tt(r) != e:
+                    ctx.violation('C02:wrong-function', f'substitution denotes {M.tt(r):#x}, expected {e:#x}', M.case())
+                elif ok and d != r:
+                    ctx.violation('C02:routes-differ',
+                                  f'substitution gave {r}, the connectives give {d} for {e:#x}', M.case())
+                M.op('decref', r)
+                if not ok:
+                    return
+            for u in sub.values():
+                M.op('decref', u)
+        M.op('decref', f)
+        if rng.random() < 0.3:
+            M.op('gc', None)
+
+
 def stream_history(ctx, n, steps):
     rng = ctx.rng
     order = list(range(n))
@@ -114,7 +166,48 @@ def stream_history(ctx, n, steps):
             if r is not None and r not in held:
                 M.op('incref', r)
                 held[r] = gen.conn(name, held[a], held[c], T.full(nv))
-        elif k < 0.6:
+        elif k < 0.58 and held and nv >= 2:
+            # derived operations: every route to a function must give the canonical node
+            a = rng.choice(list(held))
+            kind = rng.choice(['vsubst', 'vsubst', 'subst1', 'cof', 'quant', 'rename'])
+            r = e = None
+            if kind in ('vsubst', 'subst1'):
+                js = rng.sample(range(nv), 1 if kind == 'subst1' else rng.randint(2, nv))
+                sub = {}
+                for j in js:
+                    if rng.random() < 0.6:
+                        x = rng.randrange(nv)
+                        v = M.op('var', x)
+                        sub[j] = (v, T.var(x, nv))
+                        if rng.random() < 0.3 and v is not None:
+                            sub[j] = (-v, T.neg(T.var(x, nv), nv))
+                    else:
+                        c = rng.choice(list(held))
+                        sub[j] = (c, held[c])
+                if all(v[0] is not None for v in sub.values()):
+                    r = M.op('let_ref', {j: v[0] for j, v in sub.items()}, a)
+                    e = T.vector_compose(held[a], nv, {j: v[1] for j, v in sub.items()})
+            elif kind == 'cof':
+                vals = {j: rng.random() < 0.5 for j in rng.sample(range(nv), rng.randint(1, nv))}
+                r = M.op('let_bool', vals, a)
+                e = T.cofactor(held[a], nv, vals)
+            elif kind == 'quant':
+                q = rng.sample(range(nv), rng.randint(1, nv))
+                fa = rng.random() < 0.5
+                r = M.op('quantify', a, 'n', q, fa)
+                e = (T.forall if fa else T.exists)(held[a], nv, q)
+            else:
+                sup = sorted(T.support(held[a], nv))
+                free = [j for j in range(nv) if j not in sup]
+                if sup and free:
+                    x = rng.choice(sup)
+                    y = rng.choice(free)
+                    r = M.op('let_name', {x: y}, a)
+                    e = T.rename(held[a], nv, {x: y})
+            if r is not None and e is not None and r not in held:
+                M.op('incref', r)
+                held[r] = e
+        elif k < 0.62:
             M.op('gc', None)
         elif k < 0.75 and nv >= 2:
             x = rng.randrange(nv - 1)
@@ -187,5 +280,9 @@ def run(ctx):
         stream_routes(ctx, 3, order, tts)
     for order in (gen.orders(4) if not q else rng.sample(gen.orders(4), 3)):
         stream_routes(ctx, 4, order, [rng.getrandbits(16) for _ in range(6 if q else 40)])
-    for i in range(4 if q else 30):
-        stream_history(ctx, rng.choice([2, 3, 4]), 25 if q else 60)
+    for order in (gen.orders(3) if not q else rng.sample(gen.orders(3), 3)):
+        stream_subst(ctx, 3, order, sorted(rng.sample(range(256), 6 if q else 64)), 4 if q else 12)
+    for order in rng.sample(gen.orders(4), 1 if q else 8):
+        stream_subst(ctx, 4, order, [rng.getrandbits(16) for _ in range(3 if q else 24)], 4 if q else 12)
+    for i in range(6 if q else 40):
+        stream_history(ctx, rng.choice([2, 3, 4]), 30 if q else 60)
